@@ -259,13 +259,19 @@ impl State {
 //@@> |nl: Lex| -> (v: Vec<Lex>) ensures v@ =~= seq![nl] { vec![nl] }
 //@@ HINT after
 //@@< let mut res = self.newlines.pop().map_or(vec![], |nl| vec![nl]);
-//@@> let ghost g0 = res@; let ghost gnl = self.newlines@;
+//@@> let ghost g0 = res@; let ghost gnl = self.newlines@; let ghost mut ki: int = 0; let ghost mut kd: int = -1;
+//@@ HINT before
+//@@< res.append(&mut vec![Lex::new(self.pos, Token::Indent); amount]);
+//@@> proof { ki = amount as int; }
+//@@ HINT before
+//@@< res.append(&mut vec![Lex::new(self.pos, Token::Dedent); amount]);
+//@@> proof { kd = amount as int; }
 //@@ HINT before
 //@@< res.append(&mut self.newlines);
 //@@> let ghost g1 = res@;
 //@@ HINT before
 //@@< res }
-//@@> proof { lemma_token_output(*old(self), res@.last().token, g0, gnl, g1, res@); }
+//@@> proof { lemma_token_output(*old(self), g0, gnl, g1, res@, ki, kd); }
     requires
         wf(*old(self)),
         old(self).pos.line + tok_breaks(token) + 1 < 0x4000_0000,
@@ -330,25 +336,30 @@ pub proof fn lemma_count_uniform(s: Seq<Lex>, x: Token, t: Token)
 
 pub open spec fn nl_at(p: CaretPos) -> Lex { Lex { pos: Position { start: p, end: p }, token: Token::NL } }
 
-/// shape of the vector `token` returns, in terms of ghost snapshots taken inside the body
-pub proof fn lemma_token_output(pre: State, token: Token, g0: Seq<Lex>, gnl: Seq<Lex>, g1: Seq<Lex>, res: Seq<Lex>)
+/// Counting facts about the vector `token` returns, in terms of ghost snapshots taken inside the body.
+/// SCAFFOLDING RULE: this lemma states only structure (how many elements of which kind were appended); it
+/// never mentions the (line_indent - cur_indent) / 4 formula — that is left to the contract clause, so a
+/// change of the formula fails the clause and not a hint.
+pub proof fn lemma_token_output(pre: State, g0: Seq<Lex>, gnl: Seq<Lex>, g1: Seq<Lex>, res: Seq<Lex>, ki: int, kd: int)
     requires
-        wf(pre), token != Token::NL,
+        wf(pre), ki >= 0,
         pre.newlines@.len() == 0 ==> g0.len() == 0 && gnl.len() == 0,
         pre.newlines@.len() > 0 ==> g0 =~= seq![pre.newlines@.last()] && gnl =~= pre.newlines@.drop_last(),
         g1.len() >= g0.len(),
         g1.subrange(0, g0.len() as int) =~= g0,
-        pre.line_indent >= pre.cur_indent ==> g1.len() == g0.len() + (pre.line_indent - pre.cur_indent) / 4
+        kd < 0 ==> g1.len() == g0.len() + ki
             && forall|i: int| g0.len() <= i < g1.len() ==> (#[trigger] g1[i]).token == Token::Indent && g1[i].pos.start == pre.pos,
-        pre.line_indent < pre.cur_indent ==> g1.len() == g0.len() + (pre.cur_indent - pre.line_indent) / 4 + 1
+        kd >= 0 ==> g1.len() == g0.len() + kd + 1
             && g1.last().token == Token::NL && g1.last().pos.start == pre.pos
             && forall|i: int| g0.len() <= i < g1.len() - 1 ==> (#[trigger] g1[i]).token == Token::Dedent && g1[i].pos.start == pre.pos,
         res.len() == g1.len() + gnl.len() + 1,
         res.drop_last() =~= g1 + gnl,
     ensures
         forall|i: int| 0 <= i < res.len() - 1 ==> is_synthetic(#[trigger] res[i].token) && caret_le(res[i].pos.start, pre.pos),
-        count_tok(res.drop_last(), Token::Indent) as int - count_tok(res.drop_last(), Token::Dedent) as int == net_indent(abs(pre)),
-        count_tok(res.drop_last(), Token::NL) == pre.newlines@.len() + (if pre.line_indent < pre.cur_indent { 1nat } else { 0nat }),
+        kd < 0 ==> count_tok(res.drop_last(), Token::Indent) == ki && count_tok(res.drop_last(), Token::Dedent) == 0
+            && count_tok(res.drop_last(), Token::NL) == pre.newlines@.len(),
+        kd >= 0 ==> count_tok(res.drop_last(), Token::Indent) == 0 && count_tok(res.drop_last(), Token::Dedent) == kd
+            && count_tok(res.drop_last(), Token::NL) == pre.newlines@.len() + 1,
 {
     let d = res.drop_last();
     let mid = g1.subrange(g0.len() as int, g1.len() as int);
@@ -377,7 +388,7 @@ pub proof fn lemma_token_output(pre: State, token: Token, g0: Seq<Lex>, gnl: Seq
     lemma_count_concat(g0, mid, Token::Indent);
     lemma_count_concat(g0, mid, Token::Dedent);
     lemma_count_concat(g0, mid, Token::NL);
-    if pre.line_indent >= pre.cur_indent {
+    if kd < 0 {
         lemma_count_uniform(mid, Token::Indent, Token::Indent);
         lemma_count_uniform(mid, Token::Indent, Token::Dedent);
         lemma_count_uniform(mid, Token::Indent, Token::NL);
